@@ -4,6 +4,7 @@
 //!   h11 worker                          child process (one request at a time, JSON answers)
 //!   h11 one <cfg-bits> <file>           oracle on one file, verbose (replay)
 mod cases;
+mod fixprobe;
 mod progen;
 mod mutate;
 mod oracle;
@@ -130,6 +131,9 @@ fn main() {
     if args.first().map(|s| s.as_str()) == Some("worker") {
         return worker();
     }
+    if args.first().map(|s| s.as_str()) == Some("fixprobe") {
+        return fixprobe::run(&args[1]);
+    }
     if args.first().map(|s| s.as_str()) == Some("one") {
         return one(&args[1..]);
     }
@@ -159,6 +163,13 @@ fn main() {
     // (1) every corpus input: default config + random lattice points
     let n_rand_corpus = if thorough { 6 } else { 2 };
     for (p, t) in &corpus {
+        if p.contains("/corpus/C11/") {
+            // inputs of the known / fixed findings: always at the configurations they were found at
+            let mut cfgs = vec![Cfg::default_cfg(), Cfg(4), Cfg(0), Cfg(738), Cfg(2 | (1 << 2) | (1 << 4)), Cfg(1014)];
+            cfgs.extend(pick_cfgs(&mut rng, 4, false));
+            jobs.push(Job { origin: p.clone(), kind: "regression".into(), text: t.clone(), cfgs });
+            continue;
+        }
         jobs.push(Job { origin: p.clone(), kind: "corpus".into(), text: t.clone(), cfgs: pick_cfgs(&mut rng, n_rand_corpus, true) });
     }
     // (2) layout mutants of sampled corpus inputs
@@ -311,6 +322,38 @@ fn main() {
         }
     }
 
+    // ---- self-test of the oracle: tampered formatter answers must be reported ----
+    let selftest;
+    {
+        let mut applied: BTreeMap<&str, (u64, u64)> = BTreeMap::new();
+        let mut undetected: Vec<Value> = vec![];
+        let cfg = Cfg(2 | (1 << 2)); // width 100, tab 4, no sorting, no merging
+        let mut tried = 0;
+        for (p, t) in corpus.iter().filter(|(_, t)| t.len() < 20_000).take(if thorough { 400 } else { 120 }) {
+            tried += 1;
+            for kind in oracle::TAMPERS {
+                let f = move |s: &str| oracle::tamper(kind, s);
+                let v = oracle::check_tampered(t, cfg, Some(&f));
+                if !v.parsed || v.stats.get("tamper_not_applicable").is_some() {
+                    continue;
+                }
+                let e = applied.entry(kind).or_default();
+                e.0 += 1;
+                // detected = some failure without a known-finding signature
+                if v.fails.iter().any(|(_, _, s)| s.is_empty()) {
+                    e.1 += 1;
+                } else if undetected.len() < 5 {
+                    undetected.push(json!({"tamper": kind, "input": p, "fails": v.fails.iter().map(|(c, _, s)| format!("{c} [{s}]")).collect::<Vec<_>>()}));
+                }
+            }
+        }
+        selftest = json!({
+            "inputs": tried,
+            "by_tamper": applied.iter().map(|(k, v)| (k.to_string(), json!({"applied": v.0, "detected": v.1}))).collect::<serde_json::Map<_, _>>(),
+            "undetected": undetected,
+        });
+    }
+
     // ---- Coq case legs ----
     let case_summary = if std::env::var("H11_ORACLE_ONLY").is_ok() {
         json!({})
@@ -335,6 +378,7 @@ fn main() {
         "failures_by_class": by_class.iter().map(|(k, v)| (k.clone(), json!(v))).collect::<serde_json::Map<_, _>>(),
         "oracle_run_s": run_s, "workers": n_workers,
         "cases": case_summary,
+        "oracle_selftest": selftest,
         "total_s": t_start.elapsed().as_secs_f64(),
     });
     std::fs::write(outdir.join("summary.json"), serde_json::to_string_pretty(&summary).unwrap()).unwrap();
